@@ -94,7 +94,7 @@ EraseClausesI(e) ==
       \* probe points in the receiver's coordinates
       Q == Bounds(es) \cup {a, b, lo, hi} \cup {x \in Bounds(r) : x < a} \cup {x + d : x \in {y \in Bounds(r) : y >= a}}
       arithOK == A(e) \/ ~shrink
-  IN [ C07_rejects_degenerate_region |-> (a >= b) => (~Ok(e) /\ e.pe),
+  IN [ C07_rejects_degenerate_region |-> (a >= b) => ~Ok(e),
        C07_error_mode_raises_on_overlap |-> (a < b /\ mustFail) => e.st = "CollisionError",
        C07_never_fails_otherwise |-> (a < b /\ ~mustFail) => Ok(e),
        C07_result_wellformed |-> okc => WFTier(e.ret),
@@ -119,7 +119,7 @@ EraseClausesP(e) ==
       expect == [i \in Idx(keptP) |-> IF keptP[i].t > b THEN [keptP[i] EXCEPT !.t = @ - d] ELSE keptP[i]]
       okc == a < b /\ RetTier(e)
       arithOK == A(e) \/ ~shrink
-  IN [ C07_rejects_degenerate_region |-> (a >= b) => (~Ok(e) /\ e.pe),
+  IN [ C07_rejects_degenerate_region |-> (a >= b) => ~Ok(e),
        C07_never_fails_otherwise |-> (a < b) => Ok(e),
        C07_points_in_region_removed |-> okc => Labels(e.ret.ents) = Labels(keptP),
        C07_points_after_move_by_length |-> (okc /\ arithOK) => e.ret.ents = expect,
@@ -145,7 +145,7 @@ SpaceClauses(e) ==
       mustFail == mode = "error" /\ strad
       expect == IF isI THEN SpaceExpectI(es, s, d, mode) ELSE SpaceExpectP(es, s, d)
       okc == RetTier(e) /\ ~mustFail
-  IN [ C08_error_mode_rejects_straddler |-> mustFail => (~Ok(e) /\ e.pe),
+  IN [ C08_error_mode_rejects_straddler |-> mustFail => ~Ok(e),
        C08_never_fails_otherwise |-> (~mustFail) => Ok(e),
        C08_labels_and_pieces |-> okc => Labels(e.ret.ents) = Labels(expect),
        C08_entries_moved_by_exactly_d |-> (okc /\ A(e)) => e.ret.ents = expect,
@@ -182,7 +182,7 @@ EditClauses(e) ==
       newHi == IF isI THEN Max2(hi, LastEnd(expect, hi)) ELSE MaxOf({hi} \cup Times(expect))
       mustRaise == mode = "error" /\ leaves
       okc == RetTier(e) /\ A(e)
-  IN [ C09_error_mode_raises_when_leaving_span |-> (A(e) /\ mustRaise) => (~Ok(e) /\ e.pe),
+  IN [ C09_error_mode_raises_when_leaving_span |-> (A(e) /\ mustRaise) => ~Ok(e),
        C09_no_exception_otherwise |-> (A(e) /\ ~mustRaise /\ ~(mode = "error" /\ onEdge)) => Ok(e),
        C09_warning_iff_leaving_span |-> (A(e) /\ Ok(e) /\ ~(mode = "warning" /\ onEdge)) => (e.out <=> (mode = "warning" /\ leaves)),
        C09_entries_moved_by_offset |-> okc => e.ret.ents = expect,
@@ -194,7 +194,7 @@ AppendClauses(e) ==
       same == a.kind = b.kind
       shifted == IF a.kind = "I" THEN Shift(b.ents, a.hi) ELSE ShiftP(b.ents, a.hi)
       okc == RetTier(e) /\ A(e)
-  IN [ C09_append_type_mismatch_rejected |-> (~same) => (~Ok(e) /\ e.pe),
+  IN [ C09_append_type_mismatch_rejected |-> (~same) => ~Ok(e),
        C09_append_never_fails_otherwise |-> same => Ok(e),
        \* a point of B at time 0 coincides with a point of A at A's end: their relative order is not constrained
        C09_append_entries |-> (same /\ okc) => (IF a.kind = "I" THEN e.ret.ents = a.ents \o shifted
@@ -230,7 +230,7 @@ InsertClausesI(e) ==
       expected(n) == SortIv(Append(others, n))
       post == e.post.ents
   IN [ C11_degenerate_entry_rejected |-> degenerate => (~Ok(e)),
-       C13_invalid_option_value_rejected |-> badopt => (~Ok(e) /\ e.pe),
+       C13_invalid_option_value_rejected |-> badopt => ~Ok(e),
        C11_no_collision_adds_entry |-> (~degenerate /\ coll = {}) => (Ok(e) /\ post = expected(x)),
        C11_error_mode_raises_collision |-> (~degenerate /\ coll # {} /\ cmode = "error") => e.st = "CollisionError",
        C11_replace_removes_exactly_colliders |-> (~degenerate /\ coll # {} /\ cmode = "replace") => (Ok(e) /\ post = expected(x)),
@@ -238,7 +238,7 @@ InsertClausesI(e) ==
                                                (Ok(e) /\ (post = expected(ext(lab1)) \/ post = expected(ext(lab2)))),
        C11_span_is_hull |-> (~degenerate /\ Ok(e)) => (e.post.lo = Min2(e.pre.lo, x.s) /\ e.post.hi = Max2(e.pre.hi, x.e)),
        C11_sorted_after |-> Ok(e) => WFTier(e.post),
-       C11_warning_iff_collision |-> Ok(e) => (e.out <=> (rmode = "warning" /\ coll # {})) ]
+       INFO_warning_iff_collision |-> Ok(e) => (e.out <=> (rmode = "warning" /\ coll # {})) ]
 
 InsertClausesP(e) ==
   LET x == e.args.x  cmode == e.args.cmode  rmode == e.args.rmode
@@ -249,14 +249,14 @@ InsertClausesP(e) ==
       oldl == JoinL(Labels(SelectSeq(ps, LAMBDA p : p.t = x.t)), "-")
       expected(n) == SortPt(Append(others, n))
       post == e.post.ents
-  IN [ C13_invalid_option_value_rejected |-> badopt => (~Ok(e) /\ e.pe),
+  IN [ C13_invalid_option_value_rejected |-> badopt => ~Ok(e),
        C11_no_collision_adds_entry |-> (~badopt /\ coll = {}) => (Ok(e) /\ post = expected(x)),
        C11_error_mode_raises_collision |-> (~badopt /\ coll # {} /\ cmode = "error") => e.st = "CollisionError",
        C11_replace_removes_exactly_colliders |-> (~badopt /\ coll # {} /\ cmode = "replace") => (Ok(e) /\ post = expected(x)),
        C11_merge_joint_extent_and_labels |-> (~badopt /\ coll # {} /\ cmode = "merge") => (Ok(e) /\ post = expected(Pt(x.t, oldl \o "-" \o x.l))),
        C11_span_is_hull |-> Ok(e) => (e.post.lo = Min2(e.pre.lo, x.t) /\ e.post.hi = Max2(e.pre.hi, x.t)),
        C11_sorted_after |-> Ok(e) => WFTier(e.post),
-       C11_warning_iff_collision |-> Ok(e) => (e.out <=> (rmode = "warning" /\ coll # {})) ]
+       INFO_warning_iff_collision |-> Ok(e) => (e.out <=> (rmode = "warning" /\ coll # {})) ]
 
 DeleteClauses(e) ==
   LET x == e.args.x  es == e.pre.ents
